@@ -50,6 +50,20 @@ class Gen(object):
 
     # ---- single operators ------------------------------------------------------------------
     def op(self, t, depth, in_tee=False):
+        """returns (list of nodes, output type); in plain_ok mode enforces the tee_safe precondition of C01:
+        inside a tee branch no completion-triggered operator after take/first (looking through nested tees)"""
+        for _ in range(20):
+            saved = getattr(self, 'may_err', False)
+            nodes, ot = self.op1(t, depth, in_tee)
+            if self.plain_ok and in_tee and getattr(self, 'taken', False) and completion_triggered(nodes):
+                self.may_err = saved
+                continue
+            if self.plain_ok and has_take(nodes):
+                self.taken = True
+            return nodes, ot
+        return [['identity']], t
+
+    def op1(self, t, depth, in_tee=False):
         """returns (list of nodes, output type)"""
         r = self.r
         cands = []
@@ -66,7 +80,7 @@ class Gen(object):
             w(1, lambda: ([['scan', ['add'], ev(0), int(r.random() < 0.5), r.choice([['mul', ev(10)], ['add', ev(100)]])]], INT))
             w(1, lambda: ([['sum', r.choice([None, ['mul', ev(2)]]), int(r.random() < 0.3)]], FLT))
             w(1, lambda: ([['mean', None, int(r.random() < 0.3)]], FLT))
-            w(1, lambda: ([[r.choice(['min', 'max']), r.choice([None, ['neg']]), int(r.random() < 0.3)]], INT))
+            w(1, lambda: (lambda red: ([[r.choice(['min', 'max']), r.choice([None, ['neg']]), red]], ANY if red else INT))(int(r.random() < 0.3)))  # reduce on an empty lifetime emits None
             w(1, lambda: ([[r.choice(['variance', 'stddev']), None, int(r.random() < 0.3)]], FLT))
             w(1, lambda: ([['clip', ev(r.choice([None, 0, 2])), ev(r.choice([None, 5, 9]))]], INT))
             w(1, lambda: ([['fill_none', ev(0)]], INT))
@@ -86,14 +100,14 @@ class Gen(object):
             w(1, lambda: ([['filter', ['gt', ev(r.choice([0.5, 2, 3.25]))]]], FLT))
             w(1, lambda: ([['scan', r.choice([['add'], ['max']]), ev(0.0), int(r.random() < 0.3), None]], FLT))
             w(1, lambda: ([[r.choice(['sum', 'mean', 'variance', 'stddev']), None, int(r.random() < 0.3)]], FLT))
-            w(1, lambda: ([[r.choice(['min', 'max']), None, int(r.random() < 0.3)]], FLT))
-            w(1, lambda: ([['clip', ev(1.0), ev(4)]], FLT))
+            w(1, lambda: (lambda red: ([[r.choice(['min', 'max']), None, red]], ANY if red else FLT))(int(r.random() < 0.3)))
+            w(1, lambda: ([['clip', ev(1.0), ev(4.0)]], FLT))
         elif t == PAIR:
             w(3, lambda: ([['map', ['nth', r.randint(0, 1)]]], INT))
             w(2, lambda: ([['starmap', r.choice([['add'], ['mul'], ['max']])]], INT))
             w(1, lambda: ([['filter', ['comp', ['nth', 0], ['isodd']]]], PAIR))
             w(1, lambda: ([['sum', ['nth', 1], int(r.random() < 0.3)]], FLT))
-            w(1, lambda: ([[r.choice(['min', 'max']), ['nth', 0], int(r.random() < 0.3)]], INT))
+            w(1, lambda: (lambda red: ([[r.choice(['min', 'max']), ['nth', 0], red]], ANY if red else INT))(int(r.random() < 0.3)))
             if not self.plain_ok:
                 w(1, lambda: ([['distinct', ['nth', 0]]], PAIR))
         elif t == LST:
@@ -123,9 +137,13 @@ class Gen(object):
                     return nodes, ot
             # fall through: random
         nodes, ot = r.choice(cands)()
+        if nodes and nodes[0][0] == 'mean' and nodes[0][2]:
+            self.may_err = True        # mean(reduce=True) of an empty lifetime raises ZeroDivisionError in its map
         # error handlers directly after an operator whose function may raise
         if err and nodes and nodes[0][0] in ('map', 'filter', 'scan'):
             h = r.choice(['ignore', 'errmap', 'route', 'none', 'ignore'])
+            if h == 'none':
+                self.may_err = True
             if h == 'ignore':
                 nodes = nodes + [['ignore']]
             elif h == 'errmap':
@@ -165,11 +183,50 @@ class Gen(object):
         return [['tee', mode, brs]], ot
 
     def pipe(self, t, depth, n, in_tee=False):
+        """errors_handled fragment: an operator that may emit a mux error is either directly followed by a
+        handler or is the last operator of its pipeline (the error then reaches the enclosing demux); a tee
+        with such a branch is the last operator too."""
         nodes = []
+        outer = getattr(self, 'may_err', False)
+        self.may_err = False
+        taken0 = getattr(self, 'taken', False)
+        if not in_tee:
+            self.taken = False
         for _ in range(n):
             ns, t = self.op(t, depth, in_tee)
             nodes += ns
+            if self.may_err:
+                break
+        # an unhandled error leaves a tee branch through the join, but stops at the demux of a head
+        self.may_err = outer or (self.may_err and in_tee)
+        if in_tee:
+            self.taken = taken0 or False if not in_tee else taken0      # siblings do not see each other's take
         return nodes, t
+
+
+def has_take(nodes):
+    for n in nodes:
+        if n[0] in ('take', 'first'):
+            return True
+        if n[0] == 'tee' and any(has_take(b) for b in n[2]):
+            return True
+    return False
+
+
+def completion_triggered(nodes):
+    for n in nodes:
+        k = n[0]
+        if k in ('last', 'to_list', 'batch'):
+            return True
+        if k == 'count' and n[1]:
+            return True
+        if k in ('sum', 'mean', 'min', 'max', 'variance', 'stddev', 'fvariance', 'fstddev') and n[2]:
+            return True
+        if k == 'scan' and (n[3] or n[4]):
+            return True
+        if k == 'tee' and any(completion_triggered(b) for b in n[2]):
+            return True
+    return False
 
 
 # --------------------------------------------------------------------------------------------
